@@ -488,7 +488,7 @@ class Knobs:
         self.ret_in_buffered = False      # `return` inside buffered/filtered/cached callables (C03 matter)
         self.caller_in_call_expr = False  # `caller.x()` inside a <%call expr> (nextcaller clobbering, C05 matter)
         self.caller_in_block = False      # `caller.x()` directly inside an anonymous block
-        self.nested_buffered_cached = False   # inline def with buffered+cached: mako ignores `buffered` there (C05/C17 matter)
+        self.nested_buffered_cached = True    # inline def with buffered+cached (mako ignored `buffered` there before ec9a6d2)
         self.loop_in_call_expr = False    # `loop` in a <%call expr>: not seen by mako's LoopVariable (C03 matter)
         self.loop_in_call_body = False    # `loop` used in a <%call> body/def under a `% for` whose scope has no LoopStack
         self.probe = True
